@@ -130,6 +130,9 @@ func runC12(r *Run, replay *Case) {
 			if only != "" && only != p.desc+"|"+e {
 				continue
 			}
+			if r.FailureTotal() > 200 {
+				break // a damaged tree (e.g. a staging buffer that keeps what a failed write left) grows every later case: enough witnesses
+			}
 			// 1. healthy writer
 			w := &failWriter{failAt: -1}
 			err, ok := c12Call(p, e, context.Background(), w)
@@ -189,7 +192,7 @@ func runC12(r *Run, replay *Case) {
 			if strings.HasPrefix(p.desc, "ok-deep") {
 				step = 211
 			}
-			for k := 0; k <= len(full); k += step {
+			for k := 0; k <= len(full) && r.FailureTotal() <= 200; k += step {
 				if step > 1 && k+step > len(full) {
 					k = len(full) // always end on the complete document
 				}
